@@ -12,7 +12,8 @@ Inductive dvev :=
 | DvSubmit (j : N) (ok : bool)      (* Submit returned nil (true) / an error (false) *)
 | DvStart (j : N) (after : bool)    (* job j entered; had Close() already returned? *)
 | DvFinish (j : N) (ok : bool)      (* the driver lets job j return nil / an error *)
-| DvClose.                          (* Close() returned *)
+| DvClose                           (* Close() returned *)
+| DvPanic.                          (* a call into the package panicked *)
 
 Record case := mkCase { c_nw : nat; c_evs : list dvev; c_drained : bool }.
 
@@ -112,6 +113,7 @@ Fixpoint dv_run (nw : nat) (s : dst) (evs : list dvev) : bool :=
           | Some s1 => match dstep s1 LDClose with DNext s2 => dv_run nw s2 evs' | _ => false end
           | None => false
           end
+      | DvPanic => false
       end
   end.
 
@@ -150,6 +152,7 @@ Fixpoint o_walk (nw : nat) (o : ost) (evs : list dvev) : bool * ost :=
                            (o_closed o) (o_late o)) evs'
           else (false, o)
       | DvClose => o_walk nw (mkO (o_acc o) (o_rej o) (o_succ o) (o_run o) true (o_late o)) evs'
+      | DvPanic => (false, o)
       end
   end.
 
